@@ -227,6 +227,63 @@ func runC14(c *Check) {
 		return
 	}
 
+	// ---- R12: the record read is the record of the height asked for. In a method that takes
+	// a height, the height that goes into a key is the parameter as given: a height rewritten on
+	// the way (0 taken for "latest", clamped, defaulted) makes a read of one height answer with
+	// another height's record — and height 0 is a key like any other.
+	c.Doc("C14-R12", "VP: in every store method that takes a height, each datastore key built from that height is built from the parameter itself (not from a value the method substituted for it on some path).")
+	{
+		n := 0
+		for _, op := range ops {
+			if op.fn.Signature.Recv() == nil {
+				continue
+			}
+			var hp []*ssa.Parameter
+			for _, prm := range op.fn.Params[1:] {
+				if bt, ok := prm.Type().Underlying().(*types.Basic); ok && bt.Kind() == types.Uint64 {
+					hp = append(hp, prm)
+				}
+			}
+			if len(hp) == 0 || op.key == nil {
+				continue
+			}
+			subst := ""
+			mentions := false
+			op.key.Walk(func(t *Term) bool {
+				if t.Op != "call" {
+					return true
+				}
+				for _, a := range t.Args {
+					au := a.unconv()
+					for _, prm := range hp {
+						if au.V == ssa.Value(prm) {
+							mentions = true
+							continue
+						}
+						if au.Op == "phi" && au.Contains(func(x *Term) bool { return x.V == ssa.Value(prm) }) {
+							mentions = true
+							subst = trunc(au.String(), 80)
+						}
+					}
+				}
+				return true
+			})
+			if !mentions {
+				continue
+			}
+			n++
+			inst := fnShort(op.fn) + " ⟂ " + op.method + " keyed by the height asked for"
+			if subst == "" {
+				c.OK("C14-R12", inst, fnName(op.fn), p.InstrPos(op.node.In), "the key is built from the height parameter itself", true)
+			} else {
+				c.Bad("C14-R12", inst, fnName(op.fn), p.InstrPos(op.node.In), "the key is built from "+subst+": on some path the method substitutes another height for the one it was asked for (for example the latest height for 0), so a read of that height returns another height's record, and succeeds where nothing was stored", nil)
+			}
+		}
+		if n == 0 {
+			c.Unk("C14-R12", "anchor-count", "", "", "anchor lost: no datastore operation keyed by a height parameter")
+		}
+		c.MinInstances("C14-R12", 4)
+	}
 	// ---- R1
 	save := p.MustFunc("(*" + storePkg + ".DefaultStore).SaveBlockData")
 	{
